@@ -1,5 +1,6 @@
 import HmsProofs.Lemmas.SimReach
 import HmsProofs.Lemmas.SimPure
+import HmsProofs.Lemmas.SimBenign
 /-!
 # Semantic correctness of pure expressions with control flow (`exec_pure`)
 
@@ -75,13 +76,16 @@ theorem evalExpr_ifE (cfg fuel sp ty c t eb st) :
 
 /-- For one evaluation result `r` of the specification started in `st`: a value ↦ the VM runs
 from `ip` to `ip + n` with the value pushed, memory unchanged, and the specification state is
-unchanged; a fatal error ↦ the VM runs into the same fatal interrupt; otherwise no claim. -/
+unchanged; a fatal error ↦ the VM runs into the same fatal interrupt; `unsupported` / `timeout`
+(outside the model) ↦ no claim; a pure expression never ends in `break`/`continue`/`return`/`throw`. -/
 def SimP (code : Code) (lim : Limits) (s : VMState) (ip n : Nat) (stk : List SVal) (mem : List (Int × Val))
     (st : St) (r : Except Ctl Val × St) : Prop :=
   match r with
   | (.ok v, st') => st' = st ∧ RunsTo code lim s ip stk mem (ip + n) (⟨v, none⟩ :: stk) mem
   | (.error (.fatal kd m sp), st') => st' = st ∧ RunsFatal code lim s ip stk mem kd m sp
-  | _ => True
+  | (.error (.unsupported _), _) => True
+  | (.error .timeout, _) => True
+  | _ => False
 
 theorem SimP.error_n {code lim s ip n stk mem st c st1} (n' : Nat)
     (h : SimP code lim s ip n stk mem st (.error c, st1)) : SimP code lim s ip n' stk mem st (.error c, st1) := by
@@ -90,8 +94,7 @@ theorem SimP.error_n {code lim s ip n stk mem st c st1} (n' : Nat)
 theorem SimP.error_after {code lim s ip n stk mem st c st1 ip1 stk1} (n' : Nat)
     (h0 : RunsTo code lim s ip stk mem ip1 stk1 mem)
     (h : SimP code lim s ip1 n stk1 mem st (.error c, st1)) : SimP code lim s ip n' stk mem st (.error c, st1) := by
-  cases c <;> try trivial
-  exact ⟨h.1, h0.fatal h.2⟩
+  cases c <;> first | trivial | exact h.elim | exact ⟨h.1, h0.fatal h.2⟩
 
 theorem EnvRel.pushed {ρ σ lim xs scopes mp mem} (h : EnvRel ρ σ lim xs scopes mp mem) :
     EnvRel ρ σ lim xs ([] :: scopes) mp mem := by
@@ -171,9 +174,7 @@ theorem exec_pure (hc : s.calls = f :: rest) (hf : findCode code f.fn = some c) 
               obtain ⟨rfl, hrun⟩ := h1
               exact ⟨rfl, hrun⟩
             | error cerr =>
-              cases cerr <;> try trivial
-              obtain ⟨rfl, hrun⟩ := h1
-              exact ⟨rfl, hrun⟩
+              cases cerr <;> first | trivial | exact h1.elim | exact ⟨h1.1 ▸ rfl, h1.2⟩
     cases e <;> try (simp only [Frag.pureE, Bool.false_eq_true] at hs)
     case int sp v => rw [evalExpr]; exact lit (.int v) sp _ (fun _ => rfl) hpl
     case bool sp b => rw [evalExpr]; exact lit (.bool b) sp _ (fun _ => rfl) hpl
@@ -206,8 +207,8 @@ theorem exec_pure (hc : s.calls = f :: rest) (hf : findCode code f.fn = some c) 
         simp only []
         cases hp : preOp op a with
         | error c' =>
-          cases c' <;> try trivial
-          exact absurd hp (preOp_not_fatal _ _ _ _ _)
+          obtain ⟨w, rfl⟩ := preOp_error hp
+          trivial
         | ok v =>
           refine ⟨rfl, (hrun.trans (RunsTo.of_exec1 (fun k =>
             reach_pre code lim s _ k stk mem f rest c hc hf op sp lab σ a v none hi hp))).cast ?_⟩
@@ -410,7 +411,8 @@ theorem exec_pure (hc : s.calls = f :: rest) (hf : findCode code f.fn = some c) 
                   simp only [nI_nil]
                   omega
                 | error cb =>
-                  cases cb <;> try trivial
+                  have hben := binOp_benign hb
+                  cases cb <;> first | trivial | exact hben.elim | skip
                   simp only [] at hbin
                   refine ⟨rfl, hrun12.fatal ?_⟩
                   intro k
